@@ -948,13 +948,12 @@ func (s *State) evalForInteger(fe *ast.ForExpression, start *int64, end int64, n
 		register, newBody, ok = setupRegister(s.env, name, int64(startValue), fe.Body)
 		// Registers are a stack: give it back on every way out of the loop (end, break, return, error, panic).
 		defer s.env.ReleaseRegister(register)
-		if !ok {
-			return s.Errorf("for loop register %s shouldn't be modified inside the loop", name)
+		if ok { // else: the body can't be rewritten (lambda, name++ ...), use a plain variable like with NoReg.
+			ptr = register.Ptr()
 		}
-		ptr = register.Ptr()
 	}
 	for i := startValue; i < endValue; i++ {
-		if !useReg && name != "" {
+		if ptr == nil && name != "" {
 			s.env.Set(name, object.Integer{Value: int64(i)})
 		}
 		if ptr != nil {
